@@ -170,6 +170,26 @@ def dirichlet_values(m, kind, ent, basis, Dfac, ufun):
     return D, x
 
 
+def components(m, bfac):
+    """Components of the mesh connected through shared FACETS (cells that merely touch in a vertex or edge do not
+    transmit enough constraints: a single shared vertex leaves a rotation free in elasticity and nothing at all for
+    elements without vertex DOFs): component label of every boundary facet, all labels.  A pure diffusion / elasticity
+    problem needs Dirichlet data on each component, else it is singular there."""
+    nt = m.t.shape[1]
+    lab_c = list(range(nt))
+
+    def find(a):
+        while lab_c[a] != a:
+            lab_c[a] = lab_c[lab_c[a]]
+            a = lab_c[a]
+        return a
+    for j in range(m.f2t.shape[1]):
+        a, b = int(m.f2t[0, j]), int(m.f2t[1, j])
+        if b >= 0:
+            lab_c[find(a)] = find(b)
+    return ({j: find(int(m.f2t[0, j])) for j in bfac}, {find(c) for c in range(nt)})
+
+
 def patch(name, lab, ename, tier, seed, out):
     from skfem import CellBasis, FacetBasis, BilinearForm, LinearForm, condense, solve
     from skfem.models.poisson import laplace, mass
@@ -186,6 +206,7 @@ def patch(name, lab, ename, tier, seed, out):
     M0 = mass.assemble(basis)
     bfac = [int(j) for j in m.boundary_facets()]
     nb = len(bfac)
+    comp_of_facet, allcomps = components(m, bfac)
     sig0 = f"C06|patch|{ename}|"
     xq = np.asarray(basis.global_coordinates())
     cacheA = {}
@@ -214,6 +235,10 @@ def patch(name, lab, ename, tier, seed, out):
                 if problem in ('poisson', 'aniso') and len(Dsel) == 0:
                     continue
                 Dfac = [bfac[i] for i in Dsel]
+                if problem in ('poisson', 'aniso') and {comp_of_facet[j] for j in Dfac} != allcomps:
+                    # a connected component without Dirichlet data: the problem is singular there (not a legal input)
+                    out.count('singular_split_on_disconnected_mesh_skipped')
+                    continue
                 Nfac = [j for j in bfac if j not in Dfac]
                 case = {'mesh': f'{name}:{lab}', 'element': ename, 'problem': problem, 'solution': f'x^{mono}',
                         'dirichlet_facets': Dfac}
@@ -288,6 +313,7 @@ def elasticity(name, lab, ename, tier, seed, out):
     # displacement with one monomial component (all components x all monomials) plus one mixed field
     fields = [(c, mono) for c in range(dim) for mono in monos if sum(mono) >= 1]
     splits = [s for s in boundary_splits(nb, tier) if len(s) >= max(1, dim - 1)][:6]
+    comp_of_facet, allcomps = components(m, bfac)
     for c, mono in fields:
         U = [Poly(dim) for _ in range(dim)]
         U[c] = Poly.monomial(dim, mono)
@@ -302,6 +328,9 @@ def elasticity(name, lab, ename, tier, seed, out):
         for Dsel in splits:
             Dfac = [bfac[i] for i in Dsel]
             Nfac = [j for j in bfac if j not in Dfac]
+            if any(sum(1 for j in Dfac if comp_of_facet[j] == cc) < max(1, dim - 1) for cc in allcomps):
+                out.count('singular_split_on_disconnected_mesh_skipped')
+                continue
             case = {'mesh': f'{name}:{lab}', 'element': ename, 'solution': f'u_{c} = x^{mono}', 'dirichlet_facets': Dfac}
 
             def bad(what, msg):
